@@ -41,6 +41,7 @@ namespace occa {
     for (int i = 0; i < 8; ++i) {
       sh[i] = 0;
     }
+    h_string.clear();
     return *this;
   }
 
@@ -105,7 +106,7 @@ namespace occa {
   }
 
   std::string hash_t::getString() const {
-    if (*this != hash_t(sh)) {
+    if (h_string.empty() || (*this != hash_t(sh))) {
       h_string = getFullString();
       h_string = (h_string.size() < 16) ? h_string : h_string.substr(0, 16);
       for (int i = 0; i < 8; ++i) {
